@@ -383,6 +383,10 @@ func (ex *Executor) enterBlock(st *State, fr *Frame, to *ssa.BasicBlock) bool {
 		if phi.Comment == "rangeindex" {
 			// built-in invariant of go/ssa's range loops: the hidden index starts at -1 and only grows
 			st.assume(Ge(nv.T, Num(-1)))
+		} else if lb, ok := countingPhiLowerBound(phi); ok {
+			// built-in invariant of a counting loop (i := c; ...; i++ / i += k with k > 0): i never drops below c
+			// (integers are mathematical here: the assumption list of every evidence file says so)
+			st.assume(Ge(nv.T, NumB(lb)))
 		}
 		fr.vals[phi] = nv
 		if phi.Comment != "" {
@@ -1085,4 +1089,48 @@ func sortedKeys(m map[string]bool) []string {
 	}
 	sort.Strings(ks)
 	return ks
+}
+
+// countingPhiLowerBound: phi is an integer loop variable whose every incoming value is either a constant or
+// phi + (positive constant); it then never drops below the least of those constants.
+func countingPhiLowerBound(phi *ssa.Phi) (*big.Int, bool) {
+	b, ok := phi.Type().Underlying().(*types.Basic)
+	if !ok || b.Info()&types.IsInteger == 0 {
+		return nil, false
+	}
+	if b.Kind() != types.Int && b.Kind() != types.Int64 && b.Info()&types.IsUnsigned == 0 {
+		return nil, false // a narrow signed counter can wrap below its start
+	}
+	var lb *big.Int
+	for _, e := range phi.Edges {
+		switch x := e.(type) {
+		case *ssa.Const:
+			if x.Value == nil || x.Value.Kind() != constant.Int {
+				return nil, false
+			}
+			v, ok := new(big.Int).SetString(x.Value.ExactString(), 10)
+			if !ok {
+				return nil, false
+			}
+			if lb == nil || v.Cmp(lb) < 0 {
+				lb = v
+			}
+		case *ssa.BinOp:
+			if x.Op != token.ADD {
+				return nil, false
+			}
+			var c *ssa.Const
+			if x.X == ssa.Value(phi) {
+				c, _ = x.Y.(*ssa.Const)
+			} else if x.Y == ssa.Value(phi) {
+				c, _ = x.X.(*ssa.Const)
+			}
+			if c == nil || c.Value == nil || c.Value.Kind() != constant.Int || constant.Sign(c.Value) <= 0 {
+				return nil, false
+			}
+		default:
+			return nil, false
+		}
+	}
+	return lb, lb != nil
 }
